@@ -114,6 +114,8 @@ def default_inputs(run, rng, focus):
             opts = rng.choice(UNIQ_SETS[:2] + UNIQ_SETS[4:] + [{'uniqueattrs': ['j', 'i'], 'fast_match': True}, {'uniqueattrs': [('a', 'i'), 'k']}])
         if rng.random() < .08:
             opts = dict(opts, _embed=True)     # the trees are handed over as sub-elements of larger documents
+        elif rng.random() < .06:
+            opts = dict(opts, _blank=True)     # trees built in code: "" where a parser leaves None
         if focus == "C03" and rng.random() < .6:
             R = deepcopy(L)
         if focus == "C13" and rng.random() < .6:
@@ -180,6 +182,11 @@ def default_inputs(run, rng, focus):
     if focus in ("C01", "C04", "C05"):
         for a, b in NS_SEQUENCE:
             inputs.append((a, b, {}))
+    # empty attribute values (renames / moves of the value ""), and trees BUILT IN CODE whose text / tail is the empty
+    # string rather than None on both sides
+    for a, b in EMPTY_VALUE_STREAM:
+        for o in ({}, {'fast_match': True}):
+            inputs.append((a, b, o))
     # the two roots bind ONE prefix to DIFFERENT URIs (Differ.diff refuses: RuntimeError, tolerated as documented);
     # if a script is handed out all the same it must be a correct one
     if focus in ("C01", "C04", "C05"):
@@ -197,8 +204,7 @@ def default_inputs(run, rng, focus):
     if focus == "C07":
         for a, b in (('<r><a i="">same text</a><k/></r>', '<r><a>same text</a><k/></r>'),
                      ('<r><a>same text</a></r>', '<r><b/><a i="">same text</a></r>'),
-                     ('<r><a i="" j="1">t</a><a i="x" j="1">t</a></r>', '<r><a i="x" j="1">t</a><a j="1">t</a></r>'),
-                     ('<r><a xml:id="">t</a></r>', '<r><a>t</a></r>')):
+                     ('<r><a i="" j="1">t</a><a i="x" j="1">t</a></r>', '<r><a i="x" j="1">t</a><a j="1">t</a></r>')):
             for o in ({'uniqueattrs': ['i']}, {'uniqueattrs': ['i'], 'fast_match': True}, {'uniqueattrs': [('a', 'i')], 'best_match': True}, {}):
                 inputs.append((a, b, o))
     # labelled stream of inputs that fall under recorded (open) known findings
@@ -272,6 +278,13 @@ def finding_key(desc, prop, msg):
     return None
 
 
+EMPTY_VALUE_STREAM = [
+    ('<r><input disabled="">t</input></r>', '<r><input readonly="">t</input></r>'),
+    ('<r><a i="" j="">t</a><b k=""/></r>', '<r><a m="" j="">t</a><b n="" k="1"/></r>'),
+    ('<r><a x="">t</a></r>', '<r><a x="1">t</a></r>'),
+    ('<r><a x="1">t</a></r>', '<r><a x="">t</a></r>'),
+    ('<r><a x="" y="2">t</a><b/></r>', '<r><b/><a y="" z="">t</a></r>'),
+]
 ATTR_RENAME_STREAM = [
     ('<r><a i="1" j="5" x="9">t</a></r>', '<r><a i="2" k="5" x="9">t</a></r>'),
     ('<r><a j="5" x="9">t</a><b i="3" j="7"/></r>', '<r><a k="5" x="8">t</a><b i="4" k="7" j="1"/></r>'),
@@ -370,6 +383,8 @@ def evaluate(built, focus):
         L, R = etree.fromstring(desc["left"]), etree.fromstring(desc["right"])
         if desc["opts"].get("_embed"):
             differ_corr.embed_pair(L, R, desc["left"])      # judged on what the differ was given
+        if desc["opts"].get("_blank"):
+            differ_corr.blank_pair(L, R)
         opts = drun.opts
         ign = tuple(opts.get("ignored_attrs", []))
         found = []
@@ -399,7 +414,7 @@ def evaluate(built, focus):
                 found.append(("C13", "documents differ only in ignored attributes but the script is %r" % (raw,)))
             # the public entry point (main.diff_trees: one diff() call, no separate match()) must hand out the same
             # script as the stepped Differ the correspondence observes; if it does not, the property is judged on it too
-            if not desc["opts"].get("_embed"):
+            if not desc["opts"].get("_embed") and not desc["opts"].get("_blank"):
                 stats["api_calls"] = stats.get("api_calls", 0) + 1
                 rawt = [tuple([type(a).__name__] + list(a)) for a in raw]
                 api = api_script(desc, opts)
